@@ -1,6 +1,7 @@
 (* C16 — rebin propagates uncertainties as the textbook combination of each block.
    Everything is stated in the squared domain (sigma^2 or the variance). *)
-From NDV Require Import M_RebinUnc P_RebinUnc M_Rebin P_Rebin.
+From NDV Require Import M_RebinUnc P_RebinUnc M_Rebin P_Rebin P_RebinUncPerm.
+From Coq Require Import Permutation.
 Open Scope Q_scope.
 
 (* sums and means (and their nan-variants): the pairwise iteration of the code, seeded with the first
@@ -24,6 +25,13 @@ Theorem C16_flat : forall (A : Type) shape bins (x : list Z -> A) k j, divides_a
             flat_block shape bins x k j = x (zip3z (fun j b r => (j * b + r)%Z) j bins r).
 Proof. exact @flat_block_correct. Qed.
 Print Assumptions C16_flat.
+
+(* the code seeds its iteration with the first member of a block; the result nevertheless does not depend on the
+   order of the members (which one is first, masked or NaN or not): any permutation of the block gives the same value *)
+Theorem C16_order_independent : forall op um block block', block <> [] -> Permutation block block' ->
+  add_code op um block == add_code op um block'.
+Proof. exact add_code_perm. Qed.
+Print Assumptions C16_order_independent.
 
 Example C16_nonvacuous :
   Qeq_bool (add_code OMean true [mkMem (Some 1) (1 # 100) true; mkMem (Some 2) (4 # 100) false; mkMem None (9 # 100) false])
